@@ -62,3 +62,15 @@ SPEC("pane.converters", "TaggedUnionConverter.__init__",
                  and forall_val(lambda k: implies(mhas(self.tag_map, k),
                                                   is_int_key(mget(self.tag_map, k)) and 0 <= int_key(mget(self.tag_map, k)) and int_key(mget(self.tag_map, k)) < it
                                                   and dynattr(sat(self.types, int_key(mget(self.tag_map, k))), tag) == k))})
+
+
+# EnumConverter.__init__: values map back to their members; the value converter is built with the handlers (C18); flag enums,
+# unhashable or non-interchange member values are refused with TypeError before any data is looked at (C04)
+SPEC("pane.converters", "EnumConverter.__init__",
+     shapes={"ty.__members__": "map", "members": "seq", "self.member_vals": "seq"}, mutable=["self"],
+     assumes=[lambda self, ty, handlers: forall_val(lambda k: implies(mhas(ty.__members__, k), has_attr(mget(ty.__members__, k), "value")))],
+     note="assumed: every member of an Enum class has a .value (enum module)",
+     ensures=[(lambda self, ty, handlers: self.ty is ty, ["C01"], "type"),
+              (lambda self, ty, handlers: self.inner_conv == mkconv(self.inner_ty, handlers), ["C18", "C01"], "value-converter"),
+              (lambda self, ty, handlers: forall_val(lambda k: implies(mhas(self.val_map, k), attr(mget(self.val_map, k), "value") == k)), ["C01", "C06"], "value-map")],
+     raises=(lambda self, ty, handlers, exc: exc_is(exc, TypeError) or exc_is(exc, UnsupportedAnnotation), ["C04"]))
